@@ -396,7 +396,7 @@ def run(tier, only=None):
             continue
         t0 = time.time()
         m = Wrapped(config, menu, core.seed())
-        res = bfs.bfs(m, max_depth=depth, repo_root=core.REPO,
+        res = bfs.bfs(m, max_depth=depth, repo_root=core.REPO, time_cap=(600 if tier == "quick" else 1800),
                       validate_merges=(None if tier == "thorough" and len(menu) <= 12 else 1000))
         subs.append(core.Sub.from_e2(
             name, res, bound="config=%s menu=%d requests%s" % (config, len(menu), "" if depth is None else " depth<=%d" % depth),
